@@ -128,6 +128,31 @@ impl FileSystem {
         Ok(())
     }
 
+    /// remove the side files (user metadata, internal info) of an object, if there are any
+    pub(crate) fn delete_object_side_files(&self, bucket: &str, key: &str) -> Result<()> {
+        for path in [self.get_metadata_path(bucket, key, None)?, self.get_internal_info_path(bucket, key)?] {
+            match std::fs::remove_file(path) {
+                Ok(()) => {}
+                Err(e) if e.kind() == std::io::ErrorKind::NotFound => {}
+                Err(e) => return Err(e.into()),
+            }
+        }
+        Ok(())
+    }
+
+    /// remove the side files of all objects of a bucket
+    pub(crate) fn delete_bucket_side_files(&self, bucket: &str) -> Result<()> {
+        let encode = |s: &str| base64_simd::URL_SAFE_NO_PAD.encode_to_string(s);
+        let prefix = format!(".bucket-{}.object-", encode(bucket));
+        for entry in std::fs::read_dir(&self.root)? {
+            let entry = entry?;
+            if entry.file_name().to_str().is_some_and(|name| name.starts_with(&prefix)) {
+                std::fs::remove_file(entry.path())?;
+            }
+        }
+        Ok(())
+    }
+
     pub(crate) async fn load_internal_info(&self, bucket: &str, key: &str) -> Result<Option<InternalInfo>> {
         let path = self.get_internal_info_path(bucket, key)?;
         if path.exists().not() {
